@@ -63,6 +63,19 @@ Lemma parent_mutation_shares :
     <> view blake2b_256 false (run blake2b_256 true false (firstn 2 parent_hist) init_state) 1.
 Proof. vm_compute. split; [reflexivity | intro E; discriminate E]. Qed.
 
+(* the same for a SNAPSHOT that is mutated after a snapshot was taken from it: handle 1 (a snapshot
+   of handle 0) writes a node of its own generation, handle 2 is a snapshot of handle 1, then
+   handle 1 rewrites that node in place: handle 2 sees the new value.  The fork tree
+   0 -> 1 -> 2 with an operation on the inner node 1 after 2 was forked is outside frozen_parents. *)
+Definition snap_parent_hist : list step :=
+  [Put 0 k12 v3; Snap 0; Put 1 k1234 v3; Snap 1; Put 1 k1234 v40].
+Lemma snapshot_parent_mutation_shares :
+  frozen_parents snap_parent_hist = false /\
+  frozen_parents (firstn 4 snap_parent_hist) = true /\
+  view blake2b_256 false (run blake2b_256 true false snap_parent_hist init_state) 2
+    <> view blake2b_256 false (run blake2b_256 true false (firstn 4 snap_parent_hist) init_state) 2.
+Proof. vm_compute. repeat split; try reflexivity. intro E; discriminate E. Qed.
+
 (* ClearPrefixLimit on two snapshots of a committed trie with limits below and above the number of
    matching keys: the handles diverge, the source keeps its view *)
 Definition limit_hist : list xstep :=
